@@ -56,6 +56,11 @@ type chaosRun struct {
 	feedIdx int
 	base    G4
 	nconn   int
+	// secrets are handed to the server as sub-slices of one arena (two consecutive scenarios'
+	// keys lie next to each other, as sub-slices of a configuration buffer would)
+	logKey    []byte
+	arena     []byte
+	preplaced []byte // key slice of the next scenario, already placed behind the current one
 }
 
 // SecretProvider
@@ -83,7 +88,8 @@ func (h *chaosH) Handle(resp tq.Response, req tq.Request) {
 				r.rec.Emit(E{"e": "reg", "id": id})
 			case "reply", "restart", "badreply":
 				v, kind := makeReply(hd.Type, op, p)
-				r.rec.Emit(E{"e": "rep", "k": kind, "op": op})
+				cb, _ := v.MarshalBinary() // the clear reply body the handler hands to Reply (nil if it does not validate)
+				r.rec.Emit(E{"e": "rep", "k": kind, "op": op, "cb": B(cb)})
 				resp.Reply(v)
 			}
 		}
@@ -278,7 +284,7 @@ func (r *chaosRun) packetBytes(p *Pkt) (hdr []byte, wire []byte, clear []byte) {
 	ver := byte(maj<<4 | min&0xf)
 	hdr = []byte{ver, byte(ty), byte(seq), byte(p.Fl), byte(sid >> 24), byte(sid >> 16), byte(sid >> 8), byte(sid),
 		byte(n >> 24), byte(n >> 16), byte(n >> 8), byte(n)}
-	key := r.key
+	key := r.logKey
 	if p.CKey != nil {
 		key = fromInts(p.CKey)
 	}
@@ -300,19 +306,47 @@ func (r *chaosRun) packetBytes(p *Pkt) (hdr []byte, wire []byte, clear []byte) {
 	return
 }
 
-func (r *chaosRun) runScenario(sc *Scen) {
-	r.nconn++
-	r.key = r.defKey
+func (r *chaosRun) placeKeys(sc, next *Scen) []byte {
+	want := r.defKey
 	if sc.Key != nil {
-		r.key = fromInts(sc.Key)
+		want = fromInts(sc.Key)
+	}
+	if r.preplaced != nil {
+		k := r.preplaced
+		r.preplaced = nil
+		return k
+	}
+	if r.arena == nil {
+		r.arena = make([]byte, 8192)
+	}
+	n := copy(r.arena, want)
+	k := r.arena[0:n]
+	if next != nil {
+		nk := r.defKey
+		if next.Key != nil {
+			nk = fromInts(next.Key)
+		}
+		m := copy(r.arena[n:], nk)
+		r.preplaced = r.arena[n : n+m]
+	}
+	return k
+}
+
+func (r *chaosRun) runScenario(sc, next *Scen) {
+	r.nconn++
+	r.key = r.placeKeys(sc, next)
+	logKey := r.defKey // what the key is meant to be (never read back from the arena)
+	if sc.Key != nil {
+		logKey = fromInts(sc.Key)
 	}
 	r.curPkt = nil
 	r.feedIdx = 0
 	r.base = ReadG4()
-	r.rec.Emit(E{"e": "reset", "sc": sc.ID, "key": B(r.key)})
+	r.rec.Emit(E{"e": "reset", "sc": sc.ID, "key": B(logKey)})
 	conn := NewFakeConn(r.nconn, &net.TCPAddr{IP: net.ParseIP("10.1.2.3"), Port: 1000 + r.nconn%60000}, r.rec)
 	conn.quiet = true
-	conn.Extra = E{"sk": B(r.key)}
+	conn.Extra = E{"sk": B(logKey)}
+	r.logKey = logKey
 	r.conn = conn
 	r.lis.Offer(conn)
 	closed := conn.WaitQuiesce()
@@ -334,7 +368,7 @@ func (r *chaosRun) runScenario(sc *Scen) {
 		if ops == nil {
 			ops = []string{}
 		}
-		r.rec.Emit(E{"e": "feed", "i": i + 1, "h": B(hdr), "b": B(wire), "ops": ops, "rd": p.Rd, "sk": B(r.key)})
+		r.rec.Emit(E{"e": "feed", "i": i + 1, "h": B(hdr), "b": B(wire), "ops": ops, "rd": p.Rd, "sk": B(r.logKey)})
 		all := append(append([]byte{}, hdr...), wire...)
 		if p.Chunk > 0 {
 			var chunks [][]byte
@@ -388,20 +422,28 @@ func cmdChaos(args []string) {
 	}
 	defer f.Close()
 	rd := bufio.NewReaderSize(f, 1<<20)
-	n := 0
+	var all []*Scen
 	for {
 		line, err := rd.ReadBytes('\n')
 		if len(line) > 1 {
-			var sc Scen
-			if e := json.Unmarshal(line, &sc); e != nil {
+			sc := &Scen{}
+			if e := json.Unmarshal(line, sc); e != nil {
 				panic(fmt.Errorf("bad scenario line: %v: %s", e, line))
 			}
-			r.runScenario(&sc)
-			n++
+			all = append(all, sc)
 		}
 		if err != nil {
 			break
 		}
+	}
+	n := 0
+	for i, sc := range all {
+		var next *Scen
+		if i+1 < len(all) {
+			next = all[i+1]
+		}
+		r.runScenario(sc, next)
+		n++
 	}
 	r.stop()
 	tq.VerifHook = nil
